@@ -15,10 +15,11 @@ structure Inv (P n : Nat) (hist : List K) (s : SMA K) : Prop where
 
 theorem new_spec {P n : Nat} (v : K) (hn0 : 0 < n) (hn : n ≤ P - 1) :
     ∃ s, SMA.new P n v = .ok s ∧ Inv P n (history n v []) s := by
+  have hnP : n ≠ P := by omega
   obtain ⟨w, hw, ht⟩ := Tracks.new (P := P) v hn
   refine ⟨{ divider := 1 / (n : K), value := v, window := w }, ?_, ht, rfl, ?_⟩
   · have : n ≠ 0 := by omega
-    simp [SMA.new, this, winNew, hw, Res.ofExcept, Res.bind]
+    simp [SMA.new, this, hnP, winNew, hw, Res.ofExcept, Res.bind]
   · have hnK : (n : K) ≠ 0 := by exact_mod_cast (Nat.pos_iff_ne_zero.mp hn0)
     simp only [lastN_history_nil, Spec.mean, sum_replicate_field]
     field_simp
